@@ -204,10 +204,17 @@ metadata:
 data:
   k: v
   list: "a,b"
+  empty: ""
+  other: cm2
+---
+apiVersion: v1
+kind: ConfigMap
+metadata:
+  name: cm2
 `
 	res = strings.Replace(res, "SUBJECTS", pickS(r, []string{"[foo]", "[{kind: 1, name: sa}]", "[{kind: ServiceAccount, name: sa, namespace: default}]", "{}", "[[]]", "[null]", "[{kind: ServiceAccount}]"}), 1)
 	var k string
-	switch r.Intn(8) {
+	switch r.Intn(10) {
 	case 0:
 		k = "resources: [res.yaml]\nimages:\n- name: \"" + pickS(r, []string{"a(", "*", "[", "nginx", "+"}) + "\"\n  newTag: x\n"
 	case 1:
@@ -222,6 +229,11 @@ data:
 		k = "resources: [res.yaml]\nreplacements:\n- source: {}\n  targets: [{}]\n"
 	case 6:
 		k = "resources: [res.yaml]\nreplacements:\n- targets:\n  - fieldPaths: [a]\n"
+	case 7, 8:
+		// a late transformer rewrites an identity field: to nothing, to a value already taken, to another type
+		k = "resources: [res.yaml]\n" + pickS(r, []string{"", "namePrefix: p-\n", "sortOptions: {order: fifo}\n"}) + "replacements:\n- source: {kind: ConfigMap, name: cm, fieldPath: " +
+			pickS(r, []string{"data.empty", "data.other", "data.k", "metadata.name", "data"}) + "}\n  targets:\n  - select: {kind: " + pickS(r, []string{"ConfigMap", "ConfigMap", "Deployment", "ServiceAccount"}) +
+			"}\n    fieldPaths: [" + pickS(r, []string{"metadata.name", "kind", "apiVersion", "metadata.namespace", "metadata"}) + "]\n"
 	default:
 		k = "resources: [res.yaml]\nconfigurations: [cfg.yaml]\n"
 	}
